@@ -25,7 +25,7 @@ use std::io::{BufRead, Write};
 use std::panic::{catch_unwind, AssertUnwindSafe};
 use std::str::FromStr;
 
-use purl::qualifiers::well_known::{gem, maven, Checksum, DownloadUrl, FileName, RepositoryUrl, VcsUrl};
+use purl::qualifiers::well_known::{gem, maven, Checksum, DownloadUrl, FileName, KnownQualifierKey, RepositoryUrl, VcsUrl};
 use purl::qualifiers::Entry;
 use purl::*;
 
@@ -36,6 +36,50 @@ type Small = String;
 
 mod oracle;
 mod shapes;
+
+/// user-written typed qualifiers (the trait is public): a mixed-case key, a key with every special character, an invalid key
+pub struct BuildTag(pub String);
+impl KnownQualifierKey for BuildTag {
+    const KEY: &'static str = "buildTag";
+}
+impl From<BuildTag> for Small {
+    fn from(v: BuildTag) -> Self {
+        Small::from(v.0)
+    }
+}
+impl<'a> From<&'a str> for BuildTag {
+    fn from(v: &'a str) -> Self {
+        BuildTag(v.to_string())
+    }
+}
+pub struct Odd(pub String);
+impl KnownQualifierKey for Odd {
+    const KEY: &'static str = "X-Y.z_1";
+}
+impl From<Odd> for Small {
+    fn from(v: Odd) -> Self {
+        Small::from(v.0)
+    }
+}
+impl<'a> From<&'a str> for Odd {
+    fn from(v: &'a str) -> Self {
+        Odd(v.to_string())
+    }
+}
+pub struct BadKey(pub String);
+impl KnownQualifierKey for BadKey {
+    const KEY: &'static str = "bad key";
+}
+impl From<BadKey> for Small {
+    fn from(v: BadKey) -> Self {
+        Small::from(v.0)
+    }
+}
+impl<'a> From<&'a str> for BadKey {
+    fn from(v: &'a str) -> Self {
+        BadKey(v.to_string())
+    }
+}
 
 // ------------------------------------------------------------------ printing helpers
 pub fn h(s: &str) -> String {
@@ -507,6 +551,19 @@ pub fn qops(spec: &str) -> (Vec<String>, Qualifiers) {
                     q.clear();
                     "u".into()
                 },
+                // capacity management: not observable in the content (the model treats wc as clear, re/rv as no-ops)
+                "wc" => {
+                    q = Qualifiers::with_capacity(f[1].parse::<usize>().unwrap());
+                    "u".into()
+                },
+                "re" => {
+                    q.reserve_exact(f[1].parse::<usize>().unwrap());
+                    if q.capacity() < q.len() + f[1].parse::<usize>().unwrap() { "INCONSISTENT".into() } else { "u".into() }
+                },
+                "rv" => {
+                    q.reserve(f[1].parse::<usize>().unwrap());
+                    if q.capacity() < q.len() + f[1].parse::<usize>().unwrap() { "INCONSISTENT".into() } else { "u".into() }
+                },
                 "t" => {
                     q.retain(|_, v| !v.is_empty());
                     "u".into()
@@ -662,6 +719,35 @@ pub fn qops(spec: &str) -> (Vec<String>, Qualifiers) {
                         _ => panic!("bad typed index"),
                     }
                 },
+                "tu" | "tug" | "tud" => {
+                    macro_rules! utyped {
+                        ($t:ident) => {{
+                            match f[0] {
+                                "tu" => {
+                                    q.insert_typed($t(uh(f[2])));
+                                    "u".to_string()
+                                },
+                                "tug" => {
+                                    let g = q.get_typed::<$t>().map(|r| r.0);
+                                    if g.is_some() != q.contains_typed::<$t>() {
+                                        "INCONSISTENT".to_string()
+                                    } else {
+                                        ov(g.as_deref())
+                                    }
+                                },
+                                _ => {
+                                    q.remove_typed::<$t>();
+                                    "u".to_string()
+                                },
+                            }
+                        }};
+                    }
+                    match f[1] {
+                        "0" => utyped!(BuildTag),
+                        "1" => utyped!(Odd),
+                        _ => utyped!(BadKey),
+                    }
+                },
                 "tC" => match q.try_insert_typed(run_csops(f[1])) {
                     Ok(()) => "u".into(),
                     Err(_) => "e".into(),
@@ -776,6 +862,15 @@ pub fn run(line: &str) -> String {
                 },
                 Err(e) => format!("{}|{}|E {}", h(&ns), h(&nm), pkerr(&e)),
             }
+        },
+        #[cfg(feature = "pt")]
+        "M" => match Purl::from_str(&uh(a[1])) {
+            Err(e) => format!("E {}", pkerr(&e)),
+            Ok(p) => {
+                let cn = p.combined_name().to_string();
+                let b2 = Purl::builder_with_combined_name(*p.package_type(), &cn);
+                format!("{}|{}|{}|{}|{}|{}", h(p.package_type().name()), h(p.namespace().unwrap_or("")), h(p.name()), h(&cn), h(&b2.parts.namespace), h(&b2.parts.name))
+            },
         },
         "H" => shapes::run(&a),
         #[cfg(feature = "serde")]
